@@ -178,7 +178,13 @@ def rule_finish_arms(ctx, crate, rule="R-FINISH-ARMS"):
             R_v, avoid_v = K.variant_reach(b, crate, "state::ProgressFinish", v, pred, want_avoid=True)
             none_edges = []
             for sb2, t2, pl2, d2 in K.discr_switches(b):
-                if [f for f in place_fields(pl2)][-1:] and place_fields(pl2)[-1][2] == "len":
+                is_len = bool(place_fields(pl2)) and place_fields(pl2)[-1][2] == "len"
+                if not is_len and not place_fields(pl2) and K.head_of_type(pl2.get("ty", "")) == "std::option::Option":
+                    # `if let Some(len) = self.state.len()`: the getter's result, possibly through a temporary
+                    sl2 = b.slice({"k": "copy", "place": {"l": pl2["l"], "p": []}}, through_calls=False)
+                    is_len = sl2.has_call(r"state::ProgressState::len", r"progress_bar::ProgressBar::length") and not [
+                        k for k in sl2.calls if not k.matches(r"state::ProgressState::len", r"progress_bar::ProgressBar::length")]
+                if is_len:
                     for tgt2, vs2 in K.edge_variants(crate, t2, "std::option::Option").items():
                         if vs2 == {"None"}:
                             none_edges.append((sb2, tgt2))
